@@ -175,6 +175,16 @@ CHECKS = {
              'objects, "entry alone == entry together in any order", "a specification object reused for another registry == a '
              'fresh one" are judged in process, meta-schema validity and dangling $refs by a jsonschema-4 worker.',
         note='trusted: vendored meta-schemas (hash-pinned copies of tests/server/resources), jsonschema 4.26 of python3-vt; known findings D13d, D22, D23'),
+    'C17': dict(
+        category='exploration', design_ref='DESIGN.md §3 C17',
+        technique='runtime monitor: documented parameter sets vs the dispatcher as acceptance reference over all params-object subsets',
+        text='All signatures of <= 3 (thorough 4) positional-or-keyword / keyword-only parameters x defaults x context parameter at '
+             'each position (by name / positional) x exclusion predicate x function / view method are documented by OpenAPI 3.1 and '
+             'OpenRPC (pydantic extractor); the documented names / required lists are compared with the signature, and params '
+             'objects over all subsets of (documented + undocumented + context + excluded names) are dispatched on the real '
+             'dispatcher to compare acceptance with the document\'s prediction. The same function is also registered without a '
+             'context designation and both registrations are probed alternately.',
+        note='trusted: the real dispatcher with the base validator as acceptance reference (itself judged by C04)'),
 }
 
 NOT_BUILT_REASON = 'no check registered yet in this round (monitor under construction, see DESIGN.md §3)'
